@@ -189,6 +189,7 @@ type VerifC20WfNode struct {
 	NPending int      // deferred AddInput / AddDependency calls not yet applied
 	Whole    bool     // the entire input has been mapped
 	Fields   []string // first segments of the mapped target paths, sorted
+	Static   []string // paths with a static value that no Compile has applied yet, sorted
 }
 
 type VerifC20Workflow struct {
@@ -210,6 +211,10 @@ func (wf *Workflow[I, O]) VerifC20Snapshot() *VerifC20Workflow {
 			}
 			sort.Strings(wn.Fields)
 		}
+		for p := range n.staticValues {
+			wn.Static = append(wn.Static, p)
+		}
+		sort.Strings(wn.Static)
 		s.Nodes = append(s.Nodes, wn)
 	}
 	sort.Slice(s.Nodes, func(i, j int) bool { return s.Nodes[i].Key < s.Nodes[j].Key })
